@@ -12,6 +12,7 @@ package main
 import (
 	"encoding/json"
 	"fmt"
+	"github.com/biogo/biogo/align/pals/filter"
 	"io"
 	"os"
 	"path/filepath"
@@ -37,6 +38,100 @@ type KV struct {
 }
 
 func (a KV) Less(b interface{}) bool { return a.K < b.(KV).K }
+
+// further element types: a process may sort values of many types, the library's own among them
+type (
+	E1 string
+	E2 float64
+	E3 [2]int
+	E4 uint8
+	E5 struct{ A, B int }
+	E6 struct {
+		S string
+		K int
+	}
+)
+
+func (a E1) Less(b interface{}) bool { return a < b.(E1) }
+func (a E2) Less(b interface{}) bool { return a < b.(E2) }
+func (a E3) Less(b interface{}) bool { return a[0] < b.(E3)[0] }
+func (a E4) Less(b interface{}) bool { return a < b.(E4) }
+func (a E5) Less(b interface{}) bool { return a.A < b.(E5).A }
+func (a E6) Less(b interface{}) bool { return a.K < b.(E6).K }
+
+// elementTypes sorts five values of each of eight further element types, one type after the other in this
+// process, on sorters of chunk size 2 (two runs and a short one) and chunk size 8 (in memory).
+func elementTypes(c *enum.Ctx, dir string) {
+	type et struct {
+		name  string
+		proto interface{}
+		mk    func(v int) morass.LessInterface
+		pull  func(m *morass.Morass) (string, error)
+	}
+	show := func(v interface{}) string { return fmt.Sprintf("%v", v) }
+	types := []et{
+		{"string", E1(""), func(v int) morass.LessInterface { return E1(fmt.Sprint("k", v)) }, func(m *morass.Morass) (string, error) { var x E1; err := m.Pull(&x); return show(x), err }},
+		{"float64", E2(0), func(v int) morass.LessInterface { return E2(float64(v) - 2.5) }, func(m *morass.Morass) (string, error) { var x E2; err := m.Pull(&x); return show(x), err }},
+		{"array", E3{}, func(v int) morass.LessInterface { return E3{v, -v} }, func(m *morass.Morass) (string, error) { var x E3; err := m.Pull(&x); return show(x), err }},
+		{"uint8", E4(0), func(v int) morass.LessInterface { return E4(200 + v) }, func(m *morass.Morass) (string, error) { var x E4; err := m.Pull(&x); return show(x), err }},
+		{"struct", E5{}, func(v int) morass.LessInterface { return E5{v, -v} }, func(m *morass.Morass) (string, error) { var x E5; err := m.Pull(&x); return show(x), err }},
+		{"struct-string", E6{}, func(v int) morass.LessInterface { return E6{fmt.Sprint("s", v%2), v} }, func(m *morass.Morass) (string, error) { var x E6; err := m.Pull(&x); return show(x), err }},
+		{"filter.Hit", filter.Hit{}, func(v int) morass.LessInterface { return filter.Hit{From: v, To: v + 7, Diagonal: 3 - 2*v} }, func(m *morass.Morass) (string, error) { var x filter.Hit; err := m.Pull(&x); return show(x), err }},
+		{"filter.Hit-large", filter.Hit{}, func(v int) morass.LessInterface { return filter.Hit{From: v, To: v + 1<<33, Diagonal: 1<<40 + v} }, func(m *morass.Morass) (string, error) { var x filter.Hit; err := m.Pull(&x); return show(x), err }},
+	}
+	for _, chunk := range []int{2, 8} {
+		for ti, t := range types {
+			k := map[string]interface{}{"element_type": t.name, "chunk": chunk, "nth_type_of_the_process": ti + 3}
+			c.Doing(0, k)
+			c.Eval()
+			c.Guard("element-types/panic", k, func() {
+				m, err := morass.New(t.proto, "c11t", dir, chunk, false)
+				if err != nil {
+					c.Fail("element-types/new", k, "morass.New: %v", err)
+					return
+				}
+				defer func() {
+					m.CleanUp()
+					runtime.SetFinalizer(m, nil)
+				}()
+				var want []string
+				for v := 5; v >= 1; v-- {
+					if err := m.Push(t.mk(v)); err != nil {
+						c.Fail("element-types/push", k, "Push of a %s element: %v", t.name, err)
+						return
+					}
+				}
+				for v := 1; v <= 5; v++ {
+					want = append(want, show(t.mk(v)))
+				}
+				if err := m.Finalise(); err != nil {
+					c.Fail("element-types/finalise", k, "Finalise: %v", err)
+					return
+				}
+				var got []string
+				for {
+					s, err := t.pull(m)
+					if err == io.EOF {
+						break
+					}
+					if err != nil {
+						c.Fail("element-types/pull", k, "Pull: %v after %v", err, got)
+						return
+					}
+					if got = append(got, s); len(got) > 6 {
+						break
+					}
+				}
+				if fmt.Sprint(got) != fmt.Sprint(want) {
+					c.Fail("element-types/values", k, "pulled %v, want %v", got, want)
+				}
+			})
+			if chunk == 2 {
+				c.Nontrivial(enum.J(k))
+			}
+		}
+	}
+}
 
 // cycle: push Vals in order, Finalise, Pull Pulls times (len+1 = through EOF), then Clear
 // (explicitly, unless AutoClear already did at EOF).
@@ -413,12 +508,13 @@ var (
 )
 
 func run(c *enum.Ctx) {
-	c.Rule("breadth-first search over cycle histories on a real sorter: each transition is one whole cycle (push a value word, Finalise, k Pulls, Clear) from an alphabet with push counts 0,1,chunk-1,chunk,chunk+1,(chunk+2 for chunk 5),2chunk+1 (thorough: 2chunk, 3chunk+1), every value word over {1,2} up to length 3 (5) and every pull count in {0,1,half,all,all+1}; states are merged at cycle boundaries on a reflective key of the sorter (every field of the struct: scalars, slice shapes, channel contents, nil-ness of interfaces; strings and sync primitives skipped); run to closure per configuration (chunk 1,2,3,5 x AutoClear x concurrent x element type); reference model = sorted multiset; plus the size ladder: chunk sizes 2^k-1, 2^k, 2^k+1 up to 2049 (thorough 4097) with one- and two-cycle histories around the chunk size, and 7..513 run files at chunk sizes 1 and 2; non-trivial = histories whose last cycle spills")
+	c.Rule("breadth-first search over cycle histories on a real sorter: each transition is one whole cycle (push a value word, Finalise, k Pulls, Clear) from an alphabet with push counts 0,1,chunk-1,chunk,chunk+1,(chunk+2 for chunk 5),2chunk+1 (thorough: 2chunk, 3chunk+1), every value word over {1,2} up to length 3 (5) and every pull count in {0,1,half,all,all+1}; states are merged at cycle boundaries on a reflective key of the sorter (every field of the struct: scalars, slice shapes, channel contents, nil-ness of interfaces; strings and sync primitives skipped); run to closure per configuration (chunk 1,2,3,5 x AutoClear x concurrent x element type); reference model = sorted multiset; plus the size ladder: chunk sizes 2^k-1, 2^k, 2^k+1 up to 2049 (thorough 4097) with one- and two-cycle histories around the chunk size, and 7..513 run files at chunk sizes 1 and 2; eight further element types (string, float, array, byte, structs, the library's filter.Hit with negative and >32-bit fields) sorted one after the other in the process, spilling and in memory; non-trivial = histories whose last cycle spills")
 	c.Assume("protocol order push* finalise pull* clear; Clear implicit after EOF with AutoClear", "two histories with equal boundary keys have equal futures (the key is read from the real object; a missing field disables merging); histories of up to 2 (thorough: 3) cycles are all run without merging")
 	work := os.Getenv("VERIF_WORK")
 	if work == "" {
 		work = os.TempDir()
 	}
+	elementTypes(c, work)
 	var cfgs []config
 	for _, chunk := range []int{1, 2, 3, 5} { // 5: not a capacity that append-growth produces
 		for _, ac := range []bool{false, true} {
